@@ -29,6 +29,9 @@ def q_specs():
     s["iwc"] = None                                                                                  # InitialWaterContent() default lists
     Q["default_iwc"] = s
     Q["water_table"] = A.to_spec(A._b(crop="maize.2", win="w1s", word="dry", gw="0.8", soil="ClayLoam"))
+    # several dated observations (string dates): anything that passes them through an unordered container shows under other hash seeds
+    Q["water_table_series_c"] = A.to_spec(A._b(crop="maize.2", win="w1s", word="dry", gw="falling_c", soil="ClayLoam", dz="deep30"))
+    Q["water_table_series_v"] = A.to_spec(A._b(crop="cotton.2", win="w1", word="normal", gw="rising_v", soil="SandyLoam", dz="deep30"))
     s = A.to_spec(A._b(crop="maize.2", win="w2", word="normal"))
     s["co2"] = {"constant_conc": True, "current_concentration": 550.0}
     Q["constant_co2"] = s
